@@ -703,7 +703,7 @@ func TestC39Serve(t *testing.T) {
 	} else if kit.ReplayMode() {
 		t.Skip()
 	}
-	kit.SetChecks(1_200, 12_000)
+	kit.SetChecks(1_000, 8_000)
 	rapid.Check(t, func(rt *rapid.T) {
 		runC39Serve(s, rt, genServeCase(rt))
 	})
